@@ -87,26 +87,22 @@ func c27Setup() {
 }
 
 func c27Content(tok string) []byte {
+	// the token text itself followed by pseudo-random padding up to the requested size: distinct
+	// tokens always give distinct contents
 	n := 0
 	if i := strings.LastIndexByte(tok, 'x'); i >= 0 {
 		n, _ = strconv.Atoi(tok[i+1:])
 	}
-	b := make([]byte, n)
+	b := []byte(tok + ":")
 	r := newRng(int64(len(tok)))
 	h := fnv.New64a()
 	h.Write([]byte(tok))
 	r.s ^= h.Sum64()
-	for i := 0; i+8 <= n; i += 8 {
+	for len(b) < n {
 		v := r.u64()
-		for k := 0; k < 8; k++ {
-			b[i+k] = byte(v >> (8 * k))
+		for k := 0; k < 8 && len(b) < n; k++ {
+			b = append(b, byte(v>>(8*k)))
 		}
-	}
-	for i := n - n%8; i < n; i++ {
-		b[i] = byte(r.u64())
-	}
-	if n == 0 {
-		b = []byte(tok) // tokens without a size are their own content
 	}
 	h2 := fnv.New64a()
 	h2.Write(b)
